@@ -233,6 +233,7 @@ def aggregate(prop, cfg, tier, seed, results, wall, write=True):
 
     # reach obligations
     missing = [k for k in cfg.get("must_observe", []) if events.get(k, 0) == 0]
+    missing += ["note:" + k for k in cfg.get("must_note", []) if notes.get(k, 0) == 0]
     nev = sum(events.values())
     if nev == 0:
         lines.append("INCONCLUSIVE property=%s the deciding monitor observed nothing" % prop)
